@@ -148,6 +148,7 @@ type PathCtx struct {
 	lastNow   *Term
 	chanN     int
 	pendingKF []kfPred
+	deciding  bool // the next checkSat decides an assertion (cross-checked when a mirror solver runs)
 	exploring bool
 	csBudget  int
 	deadline  time.Time
@@ -203,6 +204,11 @@ func (c *PathCtx) checkSat(extra ...*Term) string {
 		c.solver.send("(assert " + s + ")")
 	}
 	r := c.solver.Check()
+	if r == "unsat" && c.deciding && c.solver.mirror != nil {
+		if x := c.solver.CrossCheck(); x == "disagree" {
+			r = "unknown:cross-solver disagreement (" + c.solver.kind + " unsat, " + c.solver.mirror.kind + " sat)"
+		}
+	}
 	c.solver.send("(pop 1)")
 	if strings.HasPrefix(r, "unknown") {
 		c.res.Unknowns++
